@@ -330,6 +330,74 @@ pub fn run_total(args: &[String]) {
                 }
             }
         }
+        "arity" => {
+            // every generic type name with every argument count 0..4 (and bare), consumed in every way a value can be consumed
+            let names = [
+                "Result", "Option", "List", "Dict", "Set", "Tuple", "FrozenList", "FrozenSet", "FrozenDict", "Callable", "int", "str", "Box", "Nope",
+            ];
+            let arglists = ["", "[]", "[int]", "[int, str]", "[int, str, bool]", "[int, str, bool, float]", "[Result[int]]", "[[int], int]"];
+            let prelude = "model Box[T]:\n    v: T\n\n\n";
+            let uses: Vec<&str> = vec![
+                "def f(v: {T}) -> None:\n    match v:\n        case Ok(a):\n            pass\n        case Err(e):\n            pass\n",
+                "def f(v: {T}) -> None:\n    match v:\n        case Err(e):\n            pass\n        case _:\n            pass\n",
+                "def f(v: {T}) -> None:\n    match v:\n        case Ok(a, b):\n            pass\n        case Err():\n            pass\n",
+                "def f(v: {T}) -> None:\n    match v:\n        case Some(a):\n            pass\n        case None:\n            pass\n",
+                "def f(v: {T}) -> None:\n    match v:\n        case (a, b):\n            pass\n        case _:\n            pass\n",
+                "def f(v: {T}) -> None:\n    match v:\n        case (a, b, c, d, e):\n            pass\n        case _:\n            pass\n",
+                "def f(v: {T}) -> None:\n    match v:\n        case Box(v=a):\n            pass\n        case Box(a):\n            pass\n        case 1:\n            pass\n        case \"s\":\n            pass\n",
+                "def f(v: {T}) -> Result[int, str]:\n    x = v?\n    return Ok(1)\n",
+                "def f(v: {T}) -> {T}:\n    x = v?\n    return v\n",
+                "def f(v: {T}) -> Option[int]:\n    x = v?\n    return None\n",
+                "def f(v: {T}) -> None:\n    for a in v:\n        pass\n",
+                "def f(v: {T}) -> None:\n    for a, b in v:\n        pass\n",
+                "def f(v: {T}) -> None:\n    x = v[0]\n    y = v[\"k\"]\n    z = v[0:1]\n",
+                "def f(mut v: {T}) -> None:\n    v[0] = 1\n    v[\"k\"] = 1\n",
+                "def f(v: {T}) -> None:\n    a = v.unwrap()\n    b = v.unwrap_or(1)\n    c = v.is_ok()\n    d = v.is_some()\n    e = v.map((q) => q)\n",
+                "def f(mut v: {T}) -> None:\n    v.append(1)\n    a = v.get(0)\n    b = v.len()\n    c = v.keys()\n    d = v.values()\n    e = v.items()\n    g = v.pop()\n",
+                "def f(v: {T}) -> None:\n    a, b = v\n",
+                "def f(v: {T}) -> None:\n    a, b, c = v\n",
+                "def f(v: {T}) -> None:\n    x = v.0\n    y = v.1\n    z = v.2\n    w = v.9\n",
+                "def f(v: {T}) -> None:\n    x = v.v\n    y = v.nope\n",
+                "def f() -> {T}:\n    return Ok(1)\n",
+                "def f() -> {T}:\n    return Err(\"e\")\n",
+                "def f() -> {T}:\n    return Some(1)\n",
+                "def f() -> {T}:\n    return None\n",
+                "def f() -> {T}:\n    return [1]\n",
+                "def f() -> {T}:\n    return {}\n",
+                "def f() -> {T}:\n    return {1: \"a\"}\n",
+                "def f() -> {T}:\n    return {1}\n",
+                "def f() -> {T}:\n    return (1, \"a\")\n",
+                "def f() -> {T}:\n    return (a) => a\n",
+                "def f() -> {T}:\n    return Box(v=1)\n",
+                "def f() -> None:\n    x: {T} = Ok(1)\n    y: {T} = Err(\"e\")\n    z: {T} = Some(1)\n    w: {T} = None\n    u: {T} = []\n    t: {T} = (1, 2)\n",
+                "model M:\n    a: {T}\n\n\ndef f(m: M) -> None:\n    match m.a:\n        case Ok(q):\n            pass\n        case Err(e):\n            pass\n        case Some(r):\n            pass\n",
+                "class C:\n    a: {T}\n\n    def g(self) -> {T}:\n        return self.a\n",
+                "enum E:\n    A({T})\n    B({T}, {T})\n\n\ndef f(e: E) -> None:\n    match e:\n        case E.A(Err(q)):\n            pass\n        case E.B(Ok(a), Some(b)):\n            pass\n        case _:\n            pass\n",
+                "type N = newtype {T}\n\n\ndef f(n: N) -> None:\n    x = n.0\n",
+                "def f(v: {T}) -> None:\n    x = [a for a in v]\n    y = {a: a for a in v}\n    z = [a for a, b in v]\n",
+                "def f(v: {T}) -> None:\n    if v:\n        pass\n    x = v == v\n    y = v + v\n    z = len(v)\n    w = f\"{v}\"\n    u = 1 in v\n    t = not v\n    s = -v\n",
+                "def f(v: {T}) -> None:\n    x = v(1)\n    y = v(1, 2)\n    z = v()\n",
+                "def g(v: {T}) -> None:\n    pass\n\n\ndef f() -> None:\n    g(Ok(1))\n    g(Err(\"e\"))\n    g(None)\n    g([1])\n    g((1, 2))\n    g((a) => a)\n",
+                "def f(v: List[{T}]) -> None:\n    for r in v:\n        match r:\n            case Err(e):\n                pass\n            case Ok(a):\n                pass\n            case Some(b):\n                pass\n",
+                "def f(v: Dict[str, {T}]) -> None:\n    match v[\"k\"]:\n        case Err(e):\n            pass\n        case _:\n            pass\n",
+                "def f(v: Option[{T}]) -> None:\n    match v:\n        case Some(Err(e)):\n            pass\n        case Some(Ok(a)):\n            pass\n        case Some((a, b)):\n            pass\n        case None:\n            pass\n",
+                "trait Tr:\n    def m(self) -> {T}\n\n\nclass K with Tr:\n    def m(self) -> {T}:\n        return Ok(1)\n",
+                "const K: {T} = [1, 2]\n",
+                "async def f(v: {T}) -> {T}:\n    x = await v\n    return x\n",
+            ];
+            let mut k: u64 = 0;
+            for nm in names {
+                for al in arglists {
+                    let ty = format!("{nm}{al}");
+                    for u in &uses {
+                        k += 1;
+                        if shard.mine(k) {
+                            run_one(&format!("{prelude}{}", u.replace("{T}", &ty)), "arity", &uri, &mut t, &mut out);
+                        }
+                    }
+                }
+            }
+        }
         "stdin" => {
             // one JSON string per line
             let stdin = std::io::stdin();
